@@ -640,5 +640,8 @@ ITEMS = location_types() + budget_types() + error_types() + [
                         ==> r is AliasError && r->AliasError_locations == (Locations { reference_location, defined_location })'''),
                   ('C16:an_error_without_a_location_stays_the_same_error', 'err_loc(err) is None && !(r is AliasError) ==> error_kind_same(err, r)')],
          canaries=['C16:an_error_that_already_names_a_node_keeps_that_location_while_it_unwinds']),
+    # SfTag::can_parse_into_string (proved in unit scalars): available to the functions of this unit, contract assumed here
+    dict(src='src/tags.rs', path='impl SfTag/fn can_parse_into_string', trusted=True, props=[],
+         ensures=[('proved_in_unit_scalars', 'r == (*self is None || *self is String || *self is Other)')]),
 ]
 ITEMS = [x for x in ITEMS if x is not None]
